@@ -160,6 +160,31 @@ class QueueDriver(InstructionGenerator):
         return self, tuple(out)
 
 
+class CountingGenerator(InstructionGenerator):
+    """a STATEFUL controller in the functional style hive expects: it returns an updated copy of itself every step and
+    acts on every third call (repositions the first idle vehicle).  Splitting a run must carry its state along."""
+
+    def __init__(self, seen: int = 0):
+        self.seen = seen
+
+    @property
+    def name(self) -> str:
+        return "CountingGenerator"
+
+    def generate_instructions(self, simulation_state, environment):
+        sim = simulation_state
+        out = []
+        if self.seen % 3 == 2:
+            idle = [v for v in sim.get_vehicles() if type(v.vehicle_state).__name__ == "Idle"]
+            targets = sorted({e.geoid for e in list(sim.stations.values()) + list(sim.bases.values())})
+            if idle and targets and isinstance(sim.road_network, HaversineRoadNetwork):
+                import nrel.hive.model.roadnetwork.haversine_link_id_ops as h_ops
+
+                g = targets[self.seen % len(targets)]
+                out.append(RepositionInstruction(idle[0].id, h_ops.geoids_to_link_id(g, g)))
+        return CountingGenerator(self.seen + 1), tuple(out)
+
+
 class Wrapped(InstructionGenerator):
     """a built-in generator, unchanged, whose emissions are also reported to the tracer"""
 
@@ -437,6 +462,77 @@ def gen_match_world(rng: random.Random, n_steps: int) -> Dict[str, Any]:
     return w
 
 
+def gen_tie_world(rng: random.Random, n_steps: int) -> Dict[str, Any]:
+    """built to be sensitive to iteration order: vehicles in several fleets, a station whose plug types rank equally,
+    stations at exactly equal grid distance in different search cells, overlapping price regions in one window,
+    requests of equal value, human and autonomous drivers, low charge so that the charging manager searches"""
+    import h3
+
+    dt = 60
+    c0 = world.at(0, 0)
+    g0 = h3.geo_to_h3(c0[0], c0[1], 15)
+    # two cells at the same grid distance from the vehicles' cell, in two different search cells that are both
+    # neighbours of (and different from) the vehicles' search cell: a ring search meets them in the same ring
+    home = h3.h3_to_parent(g0, 7)
+    neigh = sorted(h3.k_ring(home, 1) - {home})
+    rng.shuffle(neigh)
+    ga = h3.h3_to_center_child(neigh[0], 15)
+    dist = h3.h3_distance(g0, ga)
+    on_ring = h3.hex_ring(g0, dist)
+    gb = None
+    for other in neigh[1:]:
+        cand = sorted(g for g in on_ring if h3.h3_to_parent(g, 7) == other)
+        if cand:
+            gb = cand[len(cand) // 2]
+            break
+    if gb is None:
+        gb = sorted(on_ring)[0]
+    pa, pb = h3.h3_to_geo(ga), h3.h3_to_geo(gb)
+    use_fleets = rng.random() < 0.6
+    fl = {"fa": {"vehicles": [], "stations": [], "bases": []}, "fb": {"vehicles": [], "stations": [], "bases": []}}
+    stations = [
+        {"id": "sa", "lat": pa[0], "lon": pa[1], "plugs": [("LEVEL_1", 2, True), ("LEVEL_2", 2, True), ("DCFC", 2, True)]},
+        {"id": "sb", "lat": pb[0], "lon": pb[1], "plugs": [("DCFC", 2, True), ("LEVEL_2", 2, True), ("LEVEL_1", 2, True)]},
+        {"id": "bs1", "lat": c0[0], "lon": c0[1], "plugs": [("LEVEL_2", 3, False)]},
+    ]
+    bases = [{"id": "b1", "lat": c0[0], "lon": c0[1], "station": "bs1", "stalls": 4}]
+    vehicles = []
+    for k in range(rng.randint(4, 7)):
+        c = world.at(rng.uniform(-60, 60), rng.uniform(-60, 60)) if k > 2 else c0
+        v = {"id": rng.choice(["cab", "v", "x", "taxi"]) + f"{k+1}", "lat": c[0], "lon": c[1], "mech": "leaf_50",
+             "soc": rng.choice([0.07, 0.09, 0.12, 0.5, 0.8]) if k > 1 else 0.055}
+        if rng.random() < 0.25:
+            v["schedule"] = "day"
+            v["home_base"] = "b1"
+        vehicles.append(v)
+        if use_fleets:
+            for f in rng.choice([["fa"], ["fb"], ["fa", "fb"], ["fa", "fb"], []]):
+                fl[f]["vehicles"].append(v["id"])
+    requests = []
+    for k in range(rng.randint(8, 20)):
+        o = world.at(rng.uniform(-300, 300), rng.uniform(-300, 300))
+        d = world.at(rng.uniform(-300, 300), rng.uniform(-300, 300))
+        requests.append({"id": f"q{k+1:02d}", "o": o, "d": d, "dep": (rng.randrange(0, dt * n_steps * 2 // 3) // dt) * dt, "pax": 1,
+                         "fleet": rng.choice(["fa", "fb"]) if use_fleets else None})
+    requests.sort(key=lambda r: (r["dep"], r["id"]))
+    # overlapping regions (coarse and search resolution around station sa) priced differently in the same window
+    prices = []
+    for t in (0, dt * (n_steps // 2)):
+        for res, price in ((5, 0.06), (6, 0.08), (7, 0.10)):
+            for cid in ("DCFC", "LEVEL_2", "LEVEL_1"):
+                prices.append({"time": t, "target": h3.h3_to_parent(ga, res), "charger_id": cid, "price": price + (0.01 if t else 0.0)})
+                prices.append({"time": t, "target": h3.h3_to_parent(gb, res), "charger_id": cid, "price": price + (0.01 if t else 0.0)})
+    w = {"name": "ties", "dt": dt, "start": 0, "end": dt * n_steps, "cancel": 600, "vehicles": vehicles, "requests": requests,
+         "stations": stations, "bases": bases, "prices": prices, "price_key": "geoid", "focus": "ties",
+         "schedules": [("day", "00:00:00", _hms(dt * (n_steps // 2)))], "rate": (3.0, 0.0, 3.0),      # equal request values
+         "dispatcher": {"charging_range_km_threshold": 20, "charging_range_km_soft_threshold": 60}}
+    if use_fleets:
+        w["fleets"] = fl
+        for s_ in stations:
+            pass
+    return w
+
+
 def gen_world(rng: random.Random, *, n_steps: int = 40, fleets: Optional[bool] = None, humans: bool = True,
               dt: Optional[int] = None, tight: bool = True, focus: Optional[str] = None, osm: bool = False,
               pool: bool = False) -> Dict[str, Any]:
@@ -455,6 +551,8 @@ def gen_world(rng: random.Random, *, n_steps: int = 40, fleets: Optional[bool] =
         return gen_dispatch_world(rng, n_steps)
     if focus == "match":
         return gen_match_world(rng, n_steps)
+    if focus == "ties":
+        return gen_tie_world(rng, n_steps)
     dt = dt or rng.choice([30, 60, 60, 120])
     ncell = rng.randint(3, 5)
     # cells 300..1500 m apart (one to three steps at 40 km/h and dt = 60)
